@@ -276,6 +276,50 @@ var Catalogue = []Mutation{
 			return true
 		}, true)
 	}},
+	{"ATT-FUTURE-SLOT", "pabcd", func(m *MutCtx) bool {
+		// a fully signed attestation of a LATER slot of the block's own epoch (its committee is already known):
+		// slot + MIN_ATTESTATION_INCLUSION_DELAY <= state.slot fails by more than the delay itself
+		sp := m.sp()
+		slot, spe := m.B.Message.Slot, sp.P.SLOTS_PER_EPOCH
+		last := sp.StartSlotAtEpoch(sp.CurrentEpoch(m.Pre)) + spe - 1
+		if slot >= last {
+			return false
+		}
+		a := slot + 1 + uint64(m.Pr.n(int(last-slot)))
+		te := sp.CurrentEpoch(m.Pre)
+		var head refspec.Root
+		if slot > 0 {
+			head = sp.GetBlockRootAtSlot(m.Pre, slot-1)
+		}
+		troot := head
+		if st := sp.StartSlotAtEpoch(te); st < slot {
+			troot = sp.GetBlockRootAtSlot(m.Pre, st)
+		}
+		d := refspec.AttestationData{Slot: a, Index: 0, BeaconBlockRoot: head, Source: m.Pre.CurrentJustifiedCheckpoint, Target: refspec.Checkpoint{Epoch: te, Root: troot}}
+		committee := sp.BeaconCommittee(m.Pre, a, 0)
+		bits := make([]bool, len(committee))
+		var ks []uint64
+		for bi, vi := range committee {
+			k, ok := m.keyOfValidator(vi)
+			if !ok {
+				return false
+			}
+			bits[bi] = true
+			ks = append(ks, k)
+		}
+		if len(ks) == 0 {
+			return false
+		}
+		sr := sp.ComputeSigningRoot(sp.HTR("AttestationData", d.V()), sp.GetDomain(m.Pre, refspec.DOMAIN_BEACON_ATTESTER, te))
+		att := refspec.Attestation{Bits: bits, Data: d, Signature: refspec.AggregateSign(ks, sr)}
+		b := &m.B.Message.Body
+		if len(b.Attestations) > 0 {
+			b.Attestations[m.Pr.n(len(b.Attestations))] = att
+		} else {
+			b.Attestations = append(b.Attestations, att)
+		}
+		return true
+	}},
 	{"ATT-TOO-OLD", "pabcd", func(m *MutCtx) bool {
 		// an honest, fully signed attestation of the previous epoch for a slot more than SLOTS_PER_EPOCH
 		// back: out of the inclusion window before Deneb, valid from Deneb on (EIP-7045)
